@@ -2180,10 +2180,10 @@ theorem ptrace_phase (cr csel : Bytes) (srv : Bool) (ptype : PType) (pt : PT) (h
     (hcont : ∀ (t' : Tls) (D' : List CFrame) (cum' : List Bytes), AllDrained t'.frames →
       Inv frs D' (t'.frames.ks (srv, pt)) cum' → (∀ g ∈ D', g.id < t'.nextId) → IdsOK D' → MI cum' t'.msgs →
       t'.msgs.newData = false → (∀ k', k' ≠ (srv, pt) → t'.frames.ks k' = t.frames.ks k') →
-      D'.map C02Crypto.wire = D.map C02Crypto.wire ++ ins.map wireIn → PTrace cr csel t' rest) :
+      D'.map C02Crypto.wire = D.map C02Crypto.wire ++ ins.map wireIn → t' = pfold t ins → PTrace cr csel t' rest) :
     PTrace cr csel t (ins ++ rest) := by
   induction ins generalizing t D cum with
-  | nil => exact hcont t D cum hd hinv hids hidsok hmi hnd (fun _ _ => rfl) (by simp)
+  | nil => exact hcont t D cum hd hinv hids hidsok hmi hnd (fun _ _ => rfl) (by simp) rfl
   | cons c ins ih =>
     obtain ⟨hsrv, hpty, i, hi1, hi2, hi3⟩ := hins c (List.mem_cons_self ..)
     have hpt' : ptOf c.ptype = some pt := by rw [hpty]; exact hpt
@@ -2233,12 +2233,15 @@ theorem ptrace_phase (cr csel : Bytes) (srv : Bool) (ptype : PType) (pt : PT) (h
       · exact hidsok'
       · simpa [clearND] using m1
       · simp [clearND]
-      · intro t' D' cum' a1 a2 a3 a4 a5 a6 a7 a8
+      · intro t' D' cum' a1 a2 a3 a4 a5 a6 a7 a8 a9
         apply hcont t' D' cum' a1 a2 a3 a4 a5 a6
         · intro k' hk'
           rw [a7 k' hk']
           simp [clearND, State.set, hk']
         · rw [a8]; simp [C02Crypto.wire, frameOfIn, wireIn]
+        · rw [a9]
+          show _ = pfold (clearND (tlsUpdate t c).1) ins
+          rw [hup]
 
 end Reassembly
 section Messages
@@ -2528,7 +2531,7 @@ theorem ptrace_of_conformant (h : ConfHs) (hok : h.Ok) :
       · exact hh
       · exact hok.chDupsOk w hh))
     {} [] [] allDrained_init (inv_init _) (by intro g hg; cases hg) (by intro a ha; cases ha) (by intro hh; cases hh) rfl
-  intro t1 D1 cum1 d1 i1 ids1 idok1 mi1 nd1 oth1 w1
+  intro t1 D1 cum1 d1 i1 ids1 idok1 mi1 nd1 oth1 w1 _
   -- the ClientHello is complete
   have hdel1 : C02Crypto.Delivery h.chFrs D1 := by
     refine ⟨⟨h.chDups, ?_, hok.chDupsOk⟩, idok1⟩
@@ -2558,7 +2561,7 @@ theorem ptrace_of_conformant (h : ConfHs) (hok : h.Ok) :
       intro w hw; simp only [List.mem_singleton] at hw; subst hw; simp [framesOf]))
     t1 [] [] d1 (by rw [oth1 _ (by decide)]; exact inv_init _) (by intro g hg; cases hg) (by intro a ha; cases ha)
     ⟨cr1, fun hh => by cases hh⟩ nd1
-  intro t2 D2 cum2 d2 i2 ids2 idok2 mi2 nd2 oth2 w2
+  intro t2 D2 cum2 d2 i2 ids2 idok2 mi2 nd2 oth2 w2 _
   have hdel2 : C02Crypto.Delivery [encodeServerHello h.sh] D2 := by
     refine ⟨⟨[], ?_, by simp⟩, idok2⟩
     rw [w2]; simp [wireIn, inOf, framesOf]
@@ -2585,7 +2588,7 @@ theorem ptrace_of_conformant (h : ConfHs) (hok : h.Ok) :
     _ _ (phase_inputs_ok true .handshake h.sFrs _ (fun w hw => hw))
     t2 [] [] d2 (by rw [oth2 _ (by decide), oth1 _ (by decide)]; exact inv_init _) (by intro g hg; cases hg)
     (by intro a ha; cases ha) ⟨cr2, cs2⟩ nd2
-  intro t3 D3 cum3 d3 i3 ids3 idok3 mi3 nd3 oth3 w3
+  intro t3 D3 cum3 d3 i3 ids3 idok3 mi3 nd3 oth3 w3 _
   -- phase 4: the client's Finished
   show PTrace _ _ t3 (List.map (inOf false .handshake) [(0, handshake 20 h.cfin, (handshake 20 h.cfin).length)] ++ [])
   apply ptrace_phase h.ch.random h.sh.cipherSuite false .handshake .handshake rfl [handshake 20 h.cfin]
@@ -2608,9 +2611,46 @@ theorem ptrace_of_conformant (h : ConfHs) (hok : h.Ok) :
       intro w hw; simp only [List.mem_singleton] at hw; subst hw; simp [framesOf]))
     t3 [] [] d3 (by rw [oth3 _ (by decide), oth2 _ (by decide), oth1 _ (by decide)]; exact inv_init _)
     (by intro g hg; cases hg) (by intro a ha; cases ha) mi3 nd3
-  intro _ _ _ _ _ _ _ _ _ _ _
+  intro _ _ _ _ _ _ _ _ _ _ _ _
   trivial
 
 end Conformant
 
+section ConformantConn
+variable (maskFn : Dissect.MaskFn) (H : Crypto.Prims) (Pc : Cipher.Prims) (info : Nat → Pipeline.Info)
+
+/-- **C02 for a whole connection with a conformant handshake**: `quic_connection_exact` with the local parser hypothesis
+    `PTrace` replaced by its RFC-terms cause — the CRYPTO frames of the handshake datagrams are, in processing order, those of
+    a conformant TLS 1.3 handshake `hs` (`ConfHs.ins`: ClientHello in any cut / order / duplicates over the client's
+    Initial packets, ServerHello, the server's flight in order, the client's Finished); client random and selected suite
+    are the ClientHello's and the ServerHello's. -/
+theorem quic_connection_exact_conformant (hl : H.Lawful) (h32 : H.sha256.outLen = 32) (L : SealLaws Pc)
+    (hs : ConfHs) (hsok : hs.Ok) (ch sh ca sa : Bytes) (early : Option Bytes) (sel : SuiteSel)
+    (hsel : selectSuite hs.sh.cipherSuite = some sel)
+    (ho : (hashOf H sel.hash).outLen < 65536)
+    (hsa : sa.length = (hashOf H sel.hash).outLen) (hca : ca.length = (hashOf H sel.hash).outLen)
+    (kl0 : List Keylog.Key) (p0 : MainLoop.Pkt) (d0 : DgH) (items : List (List Keylog.Key × MainLoop.Pkt × DgH))
+    (hkl : ∀ x ∈ (kl0, p0, d0) :: items, KeylogHas x.1 hs.ch.random ch sh ca sa early)
+    (c : QConn) (hc : Fresh H Pc c)
+    (hok : HsDgs maskFn H Pc L (dgDcid d0) sel sh ch trk0 (d0 :: items.map (·.2.2)))
+    (hins : allIns (d0 :: items.map (·.2.2)) = hs.ins)
+    (hcar : ∀ x ∈ (kl0, p0, d0) :: items, CarriesH info c (dgWire H Pc L (dgDcid d0) sel sh ch) x.2.1 x.2.2)
+    (hkeyed : (trk0.runDgs (d0 :: items.map (·.2.2))).keyed = true)
+    (items1 : List (List Keylog.Key × MainLoop.Pkt × Dg1))
+    (hcar1 : ∀ x ∈ items1, Carries info c
+      (wireOf H Pc L sel .v1 (rfcGen (hashOf H sel.hash) sel.keyLen sa ca 0)) x.2.1 x.2.2)
+    (hsend : Send1 maskFn H Pc L sel .v1 (rfcGen (hashOf H sel.hash) sel.keyLen sa ca 0)
+      (quicHp (hashOf H sel.hash) ca sel.keyLen) (quicHp (hashOf H sel.hash) sa sel.keyLen)
+      (chachaOf (trk0.runDgs (d0 :: items.map (·.2.2))).core) 0 0
+      (trk0.runDgs (d0 :: items.map (·.2.2))).tc.app (trk0.runDgs (d0 :: items.map (·.2.2))).ts.app
+      (trk0.runDgs (d0 :: items.map (·.2.2))).cc (trk0.runDgs (d0 :: items.map (·.2.2))).sc (items1.map (·.2.2)))
+    (htimes : ((items1.map (·.2.2)).map fun d => (d.x.ts, d.x.srv)).Pairwise (· ≠ ·)) :
+    let QM := quicMachine maskFn H Pc info
+    let c1 := hsFeedAll QM c ((kl0, p0, d0) :: items)
+    (feedAll QM c1 items1).raised = none ∧
+    QM.out false (feedAll QM c1 items1) = expectedOut c (items1.map (·.2.2)) :=
+  quic_connection_exact maskFn H Pc info hl h32 L hs.ch.random hs.sh.cipherSuite ch sh ca sa early sel hsel ho hsa hca kl0 p0 d0
+    items hkl c hc hok (by rw [hins]; exact ptrace_of_conformant hs hsok) hcar hkeyed items1 hcar1 hsend htimes
+
+end ConformantConn
 end TLX.Props.C02Capstone
